@@ -25,33 +25,40 @@ package server
 // ---- the Handler interface ---------------------------------------------------------------------
 
 //@ func Handler.HandleOpenDir params(ctx, path) results(ok)
+//@   tags C03,C05
 //@   requires recv != nil && wfCtx(ctx) && handlerInv(recv, ctx)
 //@   modifies ctx.State, fopen, fpos, limbase, iofaults
 //@   ensures iofaults >= old(iofaults) && handlerInv(recv, ctx) && wireUntouched(ctx.rd.Reader) && fsw == old(fsw)
 //@ func Handler.HandleReadDir params(ctx) results(entries)
+//@   tags C03,C05
 //@   requires recv != nil && wfCtx(ctx) && handlerInv(recv, ctx)
 //@   modifies ctx.State, fopen, fpos, limbase, iofaults
 //@   ensures iofaults >= old(iofaults) && handlerInv(recv, ctx) && wireUntouched(ctx.rd.Reader) && fsw == old(fsw)
 //@   ensures forall y {at(entries, y)} :: base(entries) <= y && y < end(entries) ==> at(entries, y) != nil
 //@ func Handler.HandleReadDirEntry params(ctx) results(fi)
+//@   tags C03,C05
 //@   requires recv != nil && wfCtx(ctx) && handlerInv(recv, ctx)
 //@   modifies ctx.State, fopen, fpos, limbase, iofaults
 //@   ensures iofaults >= old(iofaults) && handlerInv(recv, ctx) && wireUntouched(ctx.rd.Reader) && fsw == old(fsw)
 //@ func Handler.HandleStatFile params(ctx, path) results(fi, err)
+//@   tags C03,C05
 //@   requires recv != nil && wfCtx(ctx) && handlerInv(recv, ctx)
 //@   modifies ctx.State, fopen, fpos, limbase, iofaults
 //@   ensures iofaults >= old(iofaults) && handlerInv(recv, ctx) && wireUntouched(ctx.rd.Reader) && fsw == old(fsw)
 //@   ensures err == nil ==> fi != nil
 //@ func Handler.HandleOpenFile params(ctx, path) results(fi, err)
+//@   tags C03,C05
 //@   requires recv != nil && wfCtx(ctx) && handlerInv(recv, ctx)
 //@   modifies ctx.State, fopen, fpos, limbase, iofaults
 //@   ensures iofaults >= old(iofaults) && handlerInv(recv, ctx) && wireUntouched(ctx.rd.Reader) && fsw == old(fsw)
 //@   ensures err == nil ==> fi != nil
 //@ func Handler.HandleCloseFile params(ctx)
+//@   tags C03,C05
 //@   requires recv != nil && wfCtx(ctx) && handlerInv(recv, ctx)
 //@   modifies ctx.State, fopen, fpos, limbase, iofaults
 //@   ensures iofaults >= old(iofaults) && handlerInv(recv, ctx) && wireUntouched(ctx.rd.Reader) && fsw == old(fsw)
 //@ func Handler.HandleReadFile params(ctx, limit, offset, w) results(err)
+//@   tags C03,C05
 //@   requires recv != nil && wfCtx(ctx) && handlerInv(recv, ctx) && w != nil && wsink(w) == ctx.rd.Reader && rwOK(w)
 //@   modifies ctx.State, fopen, fpos, limbase, iofaults, wn[ctx.rd.Reader], wdata[ctx.rd.Reader], rwhdr[w], repr(w)
 //@   let c = ctx.rd.Reader
@@ -60,23 +67,27 @@ package server
 //@   ensures err == nil && limit < 1<<31 && typeis(w, "*server.readFileResponseWriter") ==> cast(w, "server.readFileResponseWriter").dataLength >= 0 @header-attempted
 //@   ensures err == nil && limit < 1<<31 && rwhdr[w] ==> wn[c] >= old(wn[c]) + 4 && sbe32(wdata[c], old(wn[c])) == wn[c] - old(wn[c]) - 4 && wn[c] - old(wn[c]) - 4 <= limit @announced-equals-sent
 //@ func Handler.HandleReadFileCritical params(ctx, limit, offset, w) results(err)
+//@   tags C03,C05
 //@   requires recv != nil && wfCtx(ctx) && handlerInv(recv, ctx) && w == ctx.rd.Reader
 //@   modifies ctx.State, fopen, fpos, limbase, iofaults, wn[ctx.rd.Reader], wdata[ctx.rd.Reader]
 //@   let c = ctx.rd.Reader
 //@   ensures iofaults >= old(iofaults) && handlerInv(recv, ctx) && fsw == old(fsw) && fpos[c] == old(fpos[c]) && limbase[c] == 0 && outKept(c)
 //@   ensures wn[c] <= old(wn[c]) + limit && (err == nil ==> wn[c] == old(wn[c]) + limit)
 //@ func Handler.HandleReadCD2048Critical params(ctx, startSector, sectorsToRead, w) results(err)
+//@   tags C03,C05
 //@   requires recv != nil && wfCtx(ctx) && handlerInv(recv, ctx) && w == ctx.rd.Reader
 //@   modifies ctx.State, fopen, fpos, limbase, iofaults, wn[ctx.rd.Reader], wdata[ctx.rd.Reader]
 //@   let c = ctx.rd.Reader
 //@   ensures iofaults >= old(iofaults) && handlerInv(recv, ctx) && fsw == old(fsw) && fpos[c] == old(fpos[c]) && limbase[c] == 0 && outKept(c)
 //@   ensures wn[c] <= old(wn[c]) + 2048 * sectorsToRead && (err == nil ==> wn[c] == old(wn[c]) + 2048 * sectorsToRead)
 //@ func Handler.HandleCreateFile params(ctx, path) results(err)
+//@   tags C03,C05
 //@   requires recv != nil && wfCtx(ctx) && handlerInv(recv, ctx)
 //@   modifies ctx.State, fopen, fpos, limbase, iofaults, fsw
 //@   ensures iofaults >= old(iofaults) && handlerInv(recv, ctx) && wireUntouched(ctx.rd.Reader)
 //@   ensures !writeAllowed(recv) ==> fsw == old(fsw) && err != nil
 //@ func Handler.HandleWriteFile params(ctx, data) results(n, err)
+//@   tags C03,C05
 //@   requires recv != nil && wfCtx(ctx) && handlerInv(recv, ctx) && data != nil && limbase[data] == ctx.rd.Reader && fpos[data] == 0 && fsize[data] >= 0
 //@   modifies ctx.State, fopen, fpos, limbase, iofaults, fsw, wn, wdata
 //@   let c = ctx.rd.Reader
@@ -85,21 +96,25 @@ package server
 //@   ensures fpos[c] == old(fpos[c]) + fpos[data] && 0 <= fpos[data] && fpos[data] <= fsize[data] @payload-window
 //@   ensures err == nil ==> fpos[data] == fsize[data] @whole-payload
 //@ func Handler.HandleDeleteFile params(ctx, path) results(err)
+//@   tags C03,C05
 //@   requires recv != nil && wfCtx(ctx) && handlerInv(recv, ctx)
 //@   modifies ctx.State, fopen, fpos, limbase, iofaults, fsw
 //@   ensures iofaults >= old(iofaults) && handlerInv(recv, ctx) && wireUntouched(ctx.rd.Reader)
 //@   ensures !writeAllowed(recv) ==> fsw == old(fsw) && err != nil
 //@ func Handler.HandleMkdir params(ctx, path) results(err)
+//@   tags C03,C05
 //@   requires recv != nil && wfCtx(ctx) && handlerInv(recv, ctx)
 //@   modifies ctx.State, fopen, fpos, limbase, iofaults, fsw
 //@   ensures iofaults >= old(iofaults) && handlerInv(recv, ctx) && wireUntouched(ctx.rd.Reader)
 //@   ensures !writeAllowed(recv) ==> fsw == old(fsw) && err != nil
 //@ func Handler.HandleRmdir params(ctx, path) results(err)
+//@   tags C03,C05
 //@   requires recv != nil && wfCtx(ctx) && handlerInv(recv, ctx)
 //@   modifies ctx.State, fopen, fpos, limbase, iofaults, fsw
 //@   ensures iofaults >= old(iofaults) && handlerInv(recv, ctx) && wireUntouched(ctx.rd.Reader)
 //@   ensures !writeAllowed(recv) ==> fsw == old(fsw) && err != nil
 //@ func Handler.HandleGetDirSize params(ctx, path) results(n, err)
+//@   tags C03,C05
 //@   requires recv != nil && wfCtx(ctx) && handlerInv(recv, ctx)
 //@   modifies ctx.State, fopen, fpos, limbase, iofaults, walkroot
 //@   ensures iofaults >= old(iofaults) && handlerInv(recv, ctx) && wireUntouched(ctx.rd.Reader) && fsw == old(fsw)
@@ -114,6 +129,7 @@ package server
 //@ pred rwOK(w ref) := typeis(w, "*server.readFileResponseWriter") && cast(w, "server.readFileResponseWriter").dataLength != -1 && cast(w, "server.readFileResponseWriter").headerErr == nil ==> rwhdr[w]
 
 //@ func ReadFileResponseWriter.WriteHeader params(length)
+//@   tags C03,C02
 //@   requires recv != nil
 //@   modifies wn[wsink(recv)], wdata[wsink(recv)], rwhdr[recv], iofaults, repr(recv)
 //@   ensures rwOK(recv) && (typeis(recv, "*server.readFileResponseWriter") ==> cast(recv, "server.readFileResponseWriter").dataLength == length)
